@@ -1126,6 +1126,16 @@ void Explorer<FSM>::checkC09(Runner& r, Exec& x) {
 		if (x.after.active != x.before.active) { violation("C09", "replay/refused", "replayTransitions() refused the recorded list although the authority changed its configuration", x); return; }
 		return;
 	}
+	{
+		// the replayed step is a processing step of the replica: its history is exactly the list that was applied
+		const auto& rpt = rep.fsm->previousTransitions();
+		bool sameList = rpt.count() == list.size();
+		for (unsigned i = 0; sameList && i < rpt.count(); ++i) sameList = rpt[i].destination == list[i].destination && rpt[i].type == list[i].type && rpt[i].origin == list[i].origin;
+		if (!sameList) {
+			violation("C09", "replay/history-differs", "after replaying " + str((int) list.size()) + " recorded transition(s) the replica's previousTransitions() holds " + str((int) rpt.count()) + " entries / different entries", x);
+			return;
+		}
+	}
 	if (rs2.active != x.after.active) {
 		std::string a1, a2;
 		for (int s = 0; s < N; ++s) { if (x.after.active[s]) a1 += " S" + str(s); if (rs2.active[s]) a2 += " S" + str(s); }
